@@ -214,6 +214,7 @@ def check(prop_id, tier, seed, workers=None, budget_s=None, max_runs=None, verbo
     errors = []
     known_db = load_known()
     known_hits = {}
+    known_runs = 0
     unreproduced = []
     try:
         # 1. targeted scenarios of listed findings (DESIGN §5): still failing -> KNOWN-FINDING
@@ -258,6 +259,14 @@ def check(prop_id, tier, seed, workers=None, budget_s=None, max_runs=None, verbo
                 if len(errors) > 5:
                     break
             elif r.get("violation"):
+                if not os.environ.get("GAISIM_SURVEY"):
+                    # a run that fails exactly as a listed finding (classification-only classes have no generator
+                    # gate) is recorded as such and does not use up the budget of violations to triage
+                    kf0 = known.classify(known_db, prop_id, r["trace"], r["violation"])
+                    if kf0 is not None:
+                        known_hits[kf0["id"]] = kf0
+                        known_runs += 1
+                        continue
                 violations.append(r)
                 if os.environ.get("GAISIM_SURVEY"):
                     v = r["violation"]
@@ -340,8 +349,8 @@ def check(prop_id, tier, seed, workers=None, budget_s=None, max_runs=None, verbo
         print("HARNESS-ERROR (%d):\n%s" % (len(errors), errors[0][-3000:]))
         return 2
     n_ok = len([r for r in results if not r.get("violation")])
-    print("%s %s seed=%d: %d runs, %d clean, %d violating runs (%d reported, %d known classes), %.1fs" % (
-        prop_id, tier, seed, len(results), n_ok, len(violations), len(reported), len(known_hits), wall))
+    print("%s %s seed=%d: %d runs, %d clean, %d violating runs (%d reported, %d runs in %d known classes), %.1fs" % (
+        prop_id, tier, seed, len(results), n_ok, len(violations), len(reported), known_runs, len(known_hits), wall))
     return 1 if reported else 0
 
 
